@@ -20,19 +20,20 @@ KINDS = {
     "data-race": ("[]", "[EAdd %(p)s; EFin]"),
     "deadline": ("[SetDL (Some %(z)s)]", "[Tick %(z)s]"),
     "deadline-twice": ("[SetDL (Some 30); RCall 1; RStep; RStep; RStep; Tick 30; Fire; RWake BTimer; SetDL (Some (30 + %(z)s))]", "[Tick %(z)s]"),
-    "local-close": ("[]", "[LLoad; LCas; LClean; LNotify]"),
+    "local-close": ("[]", "[LLoad; LCas; LNotify; LClean]"),
     "peer-close": ("[]", "[PClose1; PClose2]"),
-    "session-close": ("[]", "[SClose; LLoad; LCas; LClean; LNotify]"),
-    "peer-session-close": ("[]", "[SClose; LLoad; LCas; LClean; LNotify]"),
-    "peer-death": ("[]", "[SClose; LLoad; LCas; LClean; LNotify]"),
+    "session-close": ("[]", "[SClose; LLoad; LCas; LNotify; LClean]"),
+    "peer-session-close": ("[]", "[SClose; LLoad; LCas; LNotify; LClean]"),
+    "peer-death": ("[]", "[SClose; LLoad; LCas; LNotify; LClean]"),
     "peer-close-queue-full": ("[]", "[PClose1; PClose2]"),
+    "close-vs-callback-start": ("[SetCb; EAdd 4; EFin]", "[LLoad; LCas; LNotify; LClean]"),
     # a read for 8 bytes parked inside OnData with 4 bytes there (w_min = 8, see case_to_coq)
-    "ondata-local-session-close": ("[EAdd 4; EFin]", "[SClose; LLoad; LCas; LClean; LNotify]"),
-    "ondata-peer-session-close": ("[EAdd 4; EFin]", "[SClose; LLoad; LCas; LClean; LNotify]"),
-    "ondata-peer-death": ("[EAdd 4; EFin]", "[SClose; LLoad; LCas; LClean; LNotify]"),
-    "ondata-deferred-close-local-session-close": ("[EAdd 4; EFin]", "[LDefer1; LDefer2; SClose; LLoad; LCas; LClean; LNotify]"),
-    "ondata-deferred-close-peer-session-close": ("[EAdd 4; EFin]", "[LDefer1; LDefer2; SClose; LLoad; LCas; LClean; LNotify]"),
-    "ondata-deferred-close-peer-death": ("[EAdd 4; EFin]", "[LDefer1; LDefer2; SClose; LLoad; LCas; LClean; LNotify]"),
+    "ondata-local-session-close": ("[EAdd 4; EFin]", "[SClose; LLoad; LCas; LNotify; LClean]"),
+    "ondata-peer-session-close": ("[EAdd 4; EFin]", "[SClose; LLoad; LCas; LNotify; LClean]"),
+    "ondata-peer-death": ("[EAdd 4; EFin]", "[SClose; LLoad; LCas; LNotify; LClean]"),
+    "ondata-deferred-close-local-session-close": ("[EAdd 4; EFin]", "[LDefer1; LDefer2; SClose; LLoad; LCas; LNotify; LClean]"),
+    "ondata-deferred-close-peer-session-close": ("[EAdd 4; EFin]", "[LDefer1; LDefer2; SClose; LLoad; LCas; LNotify; LClean]"),
+    "ondata-deferred-close-peer-death": ("[EAdd 4; EFin]", "[LDefer1; LDefer2; SClose; LLoad; LCas; LNotify; LClean]"),
     "ondata-deferred-close-only": ("[EAdd 4; EFin]", "[LDefer1; LDefer2]"),
     "ondata-deferred-close-peer-close": ("[EAdd 4; EFin]", "[LDefer1; LDefer2; PClose1; PClose2]"),
 }
@@ -41,7 +42,7 @@ KINDS = {
 def case_to_coq(c):
     pre, helpers = KINDS[c["kind"]]
     sub = {"p": "%d%%nat" % max(1, c["param"]), "z": "%d" % c["param"]}
-    wmin = 8 if c["kind"].startswith("ondata") else 1
+    wmin = 8 if (c["kind"].startswith("ondata") or c["kind"] == "close-vs-callback-start") else 1
     return "{| w_prefix := %s; w_min := %d%%nat; w_helpers := %s; w_obs := %d |}" % (pre % sub, wmin, helpers % sub, c["class"])
 
 
@@ -75,10 +76,40 @@ def eval_cases(cases, tag):
     return bad, flush
 
 
+HOOK_ANCHOR = "\n\treturn s.close()\n}"
+HOOK_CODE = "\n\tif vhookC11BeforeClose != nil {\n\t\tvhookC11BeforeClose(s)\n\t}\n\treturn s.close()\n}"
+
+
+def instrument_stream():
+    """Mechanism S (light): the CURRENT stream.go with one scheduling hook in Stream.Close, between the load of
+    callbackInProcess and the call of close() (the hook is nil except in the scenario close-vs-callback-start).
+    Nothing is written to /repo: the copy goes into the overlay."""
+    src = open(os.path.join(core.REPO, "stream.go")).read()
+    i = src.find("func (s *Stream) Close() error {")
+    j = src.find(HOOK_ANCHOR, i)
+    k = src.find("\nfunc ", i + 10)
+    if i < 0 or j < 0 or (k >= 0 and j > k):
+        return None, "cannot find `return s.close()` at the end of Stream.Close in stream.go"
+    out = src[:j] + HOOK_CODE + src[j + len(HOOK_ANCHOR):]
+    path = os.path.join(core.WORK, "c11_stream_instr_%d.go" % os.getpid())
+    with open(path, "w") as fh:
+        fh.write(out)
+    return path, None
+
+
 def run_harness(reps, seed, tag):
     outp = os.path.join(core.WORK, "c11_%s_%d.jsonl" % (tag, os.getpid()))
-    rc, out, secs = core.go_test(PROP, "^TestVerif_C11$", {"VERIF_OUT": outp, "VERIF_N": str(reps), "VERIF_SEED": str(seed)},
-                                 timeout=1500)
+    ipath, ierr = instrument_stream()
+    if ierr:
+        return [], "S: " + ierr, ""
+    try:
+        rc, out, secs = core.go_test(PROP, "^TestVerif_C11$", {"VERIF_OUT": outp, "VERIF_N": str(reps), "VERIF_SEED": str(seed)},
+                                     timeout=1500, extra_replace={os.path.join(core.REPO, "stream.go"): ipath})
+    finally:
+        try:
+            os.unlink(ipath)
+        except OSError:
+            pass
     cases = []
     if os.path.exists(outp):
         for l in open(outp):
@@ -94,6 +125,7 @@ def run_harness(reps, seed, tag):
 
 
 SIG_SENDCH = "C11:flush-blocks-forever-when-sendch-full"
+SIG_CLOSEWAIT = "C11:close-waits-for-ondata-that-waits-for-close-notification"
 SIG_DEFERRED = "C11:read-in-ondata-not-released-by-deferred-stream-close"
 
 
@@ -103,6 +135,8 @@ SIG_STALE = "C11:stale-timer-tick-makes-next-read-time-out-early"
 def signature(msg):
     if msg.startswith("deadline-race: a Read with a") and "stale timer tick" in msg:
         return SIG_STALE
+    if msg.startswith("close-vs-callback-start: Stream.Close and the read inside OnData block each other"):
+        return SIG_CLOSEWAIT
     if msg.startswith("flush-sendch-full: Flush blocks for ever"):
         return SIG_SENDCH
     if msg.startswith("ondata-deferred-close: a read parked inside OnData is not released"):
